@@ -29,6 +29,8 @@ type worker struct {
 	solver          *solver
 	decisionQueries int
 	intrinsicsUsed  map[string]int
+	sharedGlobals   map[*ssa.Global]*object
+	sharedInit      map[*ssa.Package]bool
 }
 
 type harnessSpec struct {
@@ -61,10 +63,12 @@ type violationRec struct {
 	Harness string            `json:"harness"`
 	Sig     string            `json:"signature"`
 	Confirmed string          `json:"final_check"`
+	spec      *harnessSpec
 }
 
 // vecItem: one nondet call's concrete value(s) for native replay.
 type vecItem struct {
+	Key  string  `json:"key,omitempty"` // lazy-cell key ("" = main flow)
 	Kind string  `json:"kind"`
 	Ints []int64 `json:"ints"`
 }
@@ -78,6 +82,7 @@ type pathResult struct {
 	asserts   int
 	symAsserts int
 	unknownQ  int
+	havocs    int
 	reached   map[string]bool
 	funcs     map[*ssa.Function]int
 	overrides map[string]int
@@ -97,6 +102,7 @@ type exploreResult struct {
 	asserts     int
 	symAsserts  int
 	unknownQ    int
+	havocs      int
 	reached     map[string]bool
 	funcs       map[string]int
 	overrides   map[string]int
@@ -143,7 +149,7 @@ func (w *worker) runPath(spec *harnessSpec, cfg *runConfig, prefix []choiceRec) 
 	}
 	res = &pathResult{
 		out: m.end.out, msg: m.end.msg, newJobs: m.newJobs, steps: m.steps, decisions: len(m.trace),
-		asserts: m.asserts, symAsserts: m.symAsserts, unknownQ: m.unknownQ, reached: m.reached,
+		asserts: m.asserts, symAsserts: m.symAsserts, unknownQ: m.unknownQ, havocs: m.havocs, reached: m.reached,
 		funcs: m.funcs, overrides: m.overridesHit, events: m.events, nvars: len(m.vars),
 	}
 	if res.out == outViolation || (res.out == outOK && w.id == 0) {
@@ -200,7 +206,7 @@ func (m *machine) vector(model map[string]uint64) []vecItem {
 	memo := map[*term]uint64{}
 	var out []vecItem
 	for _, r := range m.nondetLog {
-		it := vecItem{Kind: r.kind}
+		it := vecItem{Key: r.key, Kind: r.kind}
 		if r.conc != nil {
 			it.Ints = r.conc
 		} else {
@@ -240,7 +246,7 @@ func explore(p *program, spec *harnessSpec, nworkers int, seed int64) *exploreRe
 		cfg.maxDecisions = 4000
 	}
 	if cfg.symAllocLimit == 0 {
-		cfg.symAllocLimit = 1 << 16
+		cfg.symAllocLimit = 1 << 20
 	}
 	if cfg.params == nil {
 		cfg.params = map[string]int64{}
@@ -277,7 +283,7 @@ func explore(p *program, spec *harnessSpec, nworkers int, seed int64) *exploreRe
 		if err != nil {
 			panic(err)
 		}
-		workers[i] = &worker{id: i, p: p, solver: s, intrinsicsUsed: map[string]int{}}
+		workers[i] = &worker{id: i, p: p, solver: s, intrinsicsUsed: map[string]int{}, sharedGlobals: map[*ssa.Global]*object{}, sharedInit: map[*ssa.Package]bool{}}
 	}
 	for i := 0; i < nworkers; i++ {
 		wg.Add(1)
@@ -321,6 +327,7 @@ func explore(p *program, spec *harnessSpec, nworkers int, seed int64) *exploreRe
 				res.asserts += r.asserts
 				res.symAsserts += r.symAsserts
 				res.unknownQ += r.unknownQ
+				res.havocs += r.havocs
 				for k := range r.reached {
 					res.reached[k] = true
 				}
@@ -380,7 +387,7 @@ func exploreFixed(p *program, spec *harnessSpec, v *violationRec) *pathResult {
 	cfg := &runConfig{maxSteps: 50_000_000, maxDecisions: 100000, maxDepth: 400, maxConcretize: 600,
 		symAllocLimit: spec.SymAllocLimit, preemptions: spec.Preemptions, timersEager: spec.TimersEager, params: spec.Params}
 	if cfg.symAllocLimit == 0 {
-		cfg.symAllocLimit = 1 << 16
+		cfg.symAllocLimit = 1 << 20
 	}
 	if cfg.params == nil {
 		cfg.params = map[string]int64{}
@@ -396,7 +403,7 @@ func exploreFixed(p *program, spec *harnessSpec, v *violationRec) *pathResult {
 		return nil
 	}
 	defer s.close()
-	w := &worker{id: 1, p: p, solver: s, intrinsicsUsed: map[string]int{}}
+	w := &worker{id: 1, p: p, solver: s, intrinsicsUsed: map[string]int{}, sharedGlobals: map[*ssa.Global]*object{}, sharedInit: map[*ssa.Package]bool{}}
 	prefix := make([]choiceRec, len(v.Trace))
 	for i, c := range v.Trace {
 		prefix[i].c = c
